@@ -80,55 +80,56 @@ theorem map_entries_eq_map_keys {ν : Type} (d : Dict String ν) (hw : Dict.WF d
   simp [this]
 
 section
-variable (cfg : Config) (hc : cfg.cap = 0) (g : Graph)
-include hc
+variable (cfg : Config) (inst : Tracker.InstDict) (hw : Dict.WF inst) (g : Graph)
+include hw
 
 /-- what instance `n` contributes, declaratively -/
 def specContrib (n c : String) (inv : Bool) (p ty : String) (card : Card) : Nat :=
-  (Spec.classesOf cfg g n).count c *
-    (if Spec.cardMatches cfg p card (if inv then Spec.inCount cfg g n p ty else Spec.outCount cfg g n p ty) then 1 else 0)
+  (Spec.classesIn inst n).count c *
+    (if Spec.cardMatches cfg p card (if inv then Spec.inCount cfg inst g n p ty else Spec.outCount cfg inst g n p ty) then 1 else 0)
 
-omit hc in
-theorem inCount_noinv (hinv : cfg.inverse = false) : True := trivial
-
-/-- **R1 (multiplicity form, no hypothesis on the graph)** -/
+/-- **R1 (multiplicity form, for any selection with distinct keys)** -/
 theorem eget_profile (c : String) (inv : Bool) (p ty : String) (card : Card) (hinv : inv = true → cfg.inverse = true) :
-    eget (build cfg (Tracker.track cfg g) (pass2 cfg (Tracker.track cfg g) g)) c inv (p, ty, card) =
-      ((Dict.keys (Tracker.track cfg g)).map fun n => specContrib cfg g n c inv p ty card).sum := by
+    eget (build cfg inst (pass2 cfg inst g)) c inv (p, ty, card) =
+      ((Dict.keys inst).map fun n => specContrib cfg inst g n c inv p ty card).sum := by
   rw [eget_build]
-  obtain ⟨hinvD, hkeys⟩ := pass2_inv cfg (Tracker.track cfg g) g (Tracker.WF_track cfg hc g)
+  obtain ⟨hinvD, hkeys⟩ := pass2_inv cfg inst g hw
   rw [map_entries_eq_map_keys _ hinvD.wf (fun _ ni => instContrib cfg ni c inv (p, ty, card)) default, hkeys]
   apply congrArg
   apply List.map_congr_left
   intro n hn
-  have hsel : Spec.isSelected cfg g n = true := (Tracker.mem_keys_track cfg hc g n).mp hn
-  have hcls := cls_pass2 cfg hc g n
-  rw [if_pos hsel] at hcls
+  have hsel : Dict.contains inst n = true := (Dict.get?_isSome_iff_mem_keys inst n).mpr hn
+  have hcls := cls_pass2 cfg inst g n
   unfold cls at hcls
-  cases hg : Dict.get? (pass2 cfg (Tracker.track cfg g) g) n with
-  | none => rw [hg] at hcls; simp at hcls
+  cases hg : Dict.get? (pass2 cfg inst g) n with
+  | none =>
+    rw [hg] at hcls
+    unfold Dict.contains at hsel
+    rw [← hcls] at hsel
+    simp at hsel
   | some ni =>
     rw [hg] at hcls
-    simp only [Option.map_some, Option.some.injEq] at hcls
+    simp only [Option.map_some] at hcls
+    have hcl : Spec.classesIn inst n = ni.classes := by unfold Spec.classesIn; rw [← hcls]; rfl
     obtain ⟨okD, okI⟩ := hinvD.ok n ni hg
     simp only [Option.getD_some]
     unfold instContrib specContrib
     cases inv with
     | false =>
       simp only [Bool.false_eq_true, if_false]
-      rw [count_tuples_spec cfg ni.direct okD, hcls]
-      have := dcount_pass2 cfg hc g n p ty hsel
+      rw [count_tuples_spec cfg ni.direct okD, hcl]
+      have := dcount_pass2 cfg inst g n p ty hsel
       simp only [dcount, hg] at this
       rw [this]
     | true =>
       have hi := hinv rfl
       simp only [if_true, hi]
-      rw [count_tuples_spec cfg ni.inverse okI, hcls]
-      have := icount_pass2 cfg hc g n p ty hsel hi
+      rw [count_tuples_spec cfg ni.inverse okI, hcl]
+      have := icount_pass2 cfg inst g n p ty hsel hi
       simp only [icount, hg] at this
       rw [this]
 
-omit hc in
+omit hw in
 theorem sum_map_mul_ite (l : List String) (a : String → Nat) (b : String → Bool) (ha : ∀ n ∈ l, a n ≤ 1) :
     (l.map fun n => a n * (if b n then 1 else 0)).sum = (l.filter fun n => decide (a n = 1)).countP b := by
   induction l with
@@ -146,31 +147,26 @@ theorem sum_map_mul_ite (l : List String) (a : String → Nat) (b : String → B
     · have h0 : a x = 0 := by omega
       simp [h0]
 
-/-- **R1**: on graphs where no node is given the same class twice (duplicate-free documents), every
-profile entry is the number of selected nodes of the class whose value count matches the cardinality -/
-theorem profile_exact (hnd : ∀ n, (Spec.classesOf cfg g n).Nodup)
+/-- **R1**: when no node is selected twice for the same class, every profile entry is the number of
+selected nodes of the class whose value count matches the cardinality -/
+theorem profile_exact (hnd : ∀ n, (Spec.classesIn inst n).Nodup)
     (c : String) (inv : Bool) (p ty : String) (card : Card) (hinv : inv = true → cfg.inverse = true) :
-    eget (build cfg (Tracker.track cfg g) (pass2 cfg (Tracker.track cfg g) g)) c inv (p, ty, card) =
-      Spec.countOver cfg g (Dict.keys (Tracker.track cfg g)) c inv p ty card := by
-  rw [eget_profile cfg hc g c inv p ty card hinv]
+    eget (build cfg inst (pass2 cfg inst g)) c inv (p, ty, card) = Spec.countOver cfg inst g c inv p ty card := by
+  rw [eget_profile cfg inst hw g c inv p ty card hinv]
   unfold specContrib Spec.countOver
   rw [sum_map_mul_ite]
   · congr 1
     apply List.filter_congr
     intro n _
-    have := hnd n
-    rw [List.nodup_iff_count] at this
-    have h1 := this c
-    by_cases hm : c ∈ Spec.classesOf cfg g n
-    · have : List.count c (Spec.classesOf cfg g n) = 1 := by
+    have h1 := (List.nodup_iff_count.mp (hnd n)) c
+    by_cases hm : c ∈ Spec.classesIn inst n
+    · have : List.count c (Spec.classesIn inst n) = 1 := by
         have := List.count_pos_iff.mpr hm; omega
       simp [this, hm]
-    · have : List.count c (Spec.classesOf cfg g n) = 0 := List.count_eq_zero_of_not_mem hm
+    · have : List.count c (Spec.classesIn inst n) = 0 := List.count_eq_zero_of_not_mem hm
       simp [this, hm]
   · intro n _
-    have := hnd n
-    rw [List.nodup_iff_count] at this
-    exact this c
+    exact (List.nodup_iff_count.mp (hnd n)) c
 
 end
 
@@ -233,34 +229,26 @@ theorem cget_initCounts (cfg : Config) (inst : Tracker.InstDict) (c : String) :
       rw [ih, cget_foldl_bump]; omega
   rw [this, cget_seedCounts, Nat.zero_add]
 
-/-- **R1, class counts**: the number reported for a class is the number of selected nodes of the
-class (duplicate-free documents) -/
-theorem count_exact (cfg : Config) (hc : cfg.cap = 0) (g : Graph) (hnd : ∀ n, (Spec.classesOf cfg g n).Nodup) (c : String) :
-    cget (initCounts cfg (Tracker.track cfg g)) c = Spec.classSizeOver cfg g (Dict.keys (Tracker.track cfg g)) c := by
+/-- **R1, class counts**: the number reported for a class is the number of nodes selected for it -/
+theorem count_exact (cfg : Config) (inst : Tracker.InstDict) (hw : Dict.WF inst)
+    (hnd : ∀ n, (Spec.classesIn inst n).Nodup) (c : String) :
+    cget (initCounts cfg inst) c = Spec.classSize inst c := by
   rw [cget_initCounts]
-  have hw := Tracker.WF_track cfg hc g
   rw [map_entries_eq_map_keys _ hw (fun _ cls => cls.count c) []]
-  unfold Spec.classSizeOver
-  have : ∀ l : List String, (∀ n ∈ l, n ∈ Dict.keys (Tracker.track cfg g)) →
-      (l.map fun k => List.count c ((Dict.get? (Tracker.track cfg g) k).getD [])).sum
-        = (l.filter fun n => (Spec.classesOf cfg g n).contains c).length := by
-    intro l
-    induction l with
-    | nil => intro _; rfl
-    | cons n ns ih =>
-      intro hmem
-      have hn := hmem n (List.mem_cons_self)
-      have hsel := (Tracker.mem_keys_track cfg hc g n).mp hn
-      simp only [List.map_cons, List.sum_cons, List.filter_cons]
-      rw [ih (fun m hm => hmem m (List.mem_cons_of_mem _ hm)), Tracker.get?_track cfg hc, if_pos hsel]
-      simp only [Option.getD_some]
-      have h1 := (List.nodup_iff_count.mp (hnd n)) c
-      by_cases hm : c ∈ Spec.classesOf cfg g n
-      · have : List.count c (Spec.classesOf cfg g n) = 1 := by
-          have := List.count_pos_iff.mpr hm; omega
-        simp [this, hm]; omega
-      · simp [List.count_eq_zero_of_not_mem hm, hm]
-  exact this _ (fun n hn => hn)
+  unfold Spec.classSize
+  generalize Dict.keys inst = l
+  induction l with
+  | nil => rfl
+  | cons n ns ih =>
+    simp only [List.map_cons, List.sum_cons, List.filter_cons]
+    rw [ih]
+    have h1 := (List.nodup_iff_count.mp (hnd n)) c
+    unfold Spec.classesIn at h1 ⊢
+    by_cases hm : c ∈ (Dict.get? inst n).getD []
+    · have : List.count c ((Dict.get? inst n).getD []) = 1 := by
+        have := List.count_pos_iff.mpr hm; omega
+      simp [this, hm]; omega
+    · simp [List.count_eq_zero_of_not_mem hm, hm]
 
 end Profiler
 end Shexer
